@@ -6,5 +6,10 @@ export GOFLAGS=-mod=mod GOPROXY=off GOSUMDB=off GOTOOLCHAIN=local
 mkdir -p .build evidence/replay lean/Faithful/Generated
 (cd harness/extract && go build -o ../../.build/extract .)
 ./.build/extract /repo lean/Faithful/Generated
+python3 - <<PY
+import glob
+mods=["import "+f[5:-5].replace("/",".") for f in sorted(glob.glob("lean/Faithful/Lib/*.lean")+glob.glob("lean/Faithful/Properties/*.lean"))]
+open("lean/Faithful.lean","w").write("\n".join(mods)+"\n")
+PY
 (cd lean && lake build Faithful fdrv)
 echo setup ok
